@@ -34,10 +34,13 @@ def run_tests(wt):
     return rc, passed, failed, out[-1500:]
 
 
+DEMO_ARGS = ''
+
+
 def run_demo(demo):
     """-> (rc, tail). `cargo run` if the crate has a binary, else `cargo test`"""
     has_bin = os.path.exists(os.path.join(demo, 'src', 'main.rs')) or os.path.isdir(os.path.join(demo, 'src', 'bin'))
-    cmd = 'cargo run --offline 2>&1' if has_bin else 'cargo test --offline 2>&1'
+    cmd = ('cargo run --offline %s 2>&1' if has_bin else 'cargo test --offline %s 2>&1') % DEMO_ARGS
     for sub in [demo] + [os.path.join(demo, x) for x in os.listdir(demo) if os.path.isdir(os.path.join(demo, x))]:
         shutil.rmtree(os.path.join(sub, 'target'), ignore_errors=True)
     rc, out = sh(cmd, cwd=demo)
@@ -110,6 +113,10 @@ if __name__ == '__main__':
     a = sys.argv[1:]
     if a[0] == 'confirm':
         needs = ''
+        if '--demo-args' in a:
+            k = a.index('--demo-args')
+            DEMO_ARGS = a[k + 1]
+            del a[k:k + 2]
         if '--needs' in a:
             k = a.index('--needs')
             needs = a[k + 1]
